@@ -517,7 +517,7 @@ impl Property for C06 {
         }
         v
     }
-    fn extra_coverage(&self, classes: &std::collections::BTreeMap<String, u64>, cov: &mut serde_json::Map<String, serde_json::Value>) {
+    fn extra_coverage(&self, classes: &mut std::collections::BTreeMap<String, u64>, cov: &mut serde_json::Map<String, serde_json::Value>) {
         let s = classes.get("from_random_bytes:some").copied().unwrap_or(0) as f64;
         let n = classes.get("from_random_bytes:calls").copied().unwrap_or(0) as f64;
         if n > 0.0 {
